@@ -67,6 +67,8 @@ class _LegModel:
         self.np_arg = None
         self.calls = []
         fr = self.fr = Frag(fi.module.source, on_call=self._call, on_attr=self._attr, on_subscript=self._sub, specialise=n_value is not None)
+        # the node / weight arrays (and everything derived from them element-wise) have as many entries as numpy was asked for
+        fr.on_len = lambda f_, e_: (self.np_arg if self.np_arg is not None and self._whole(self._try_ev(f_, e_)) is not None else None)
         fr.env[self.p_xl] = S("xl")
         fr.env[self.p_xu] = S("xu")
         fr.env[self.p_params] = Opaque("params")
@@ -76,6 +78,13 @@ class _LegModel:
             fr.env[n_name] = C(n_value)
         r = fr.run(fi.node.body)
         self.ret = r[1] if r else None
+
+    @staticmethod
+    def _try_ev(fr, e):
+        try:
+            return fr.ev(e)
+        except Uninterpretable:
+            return None
 
     def _attr(self, fr, e):
         if isinstance(e.value, ast.Name) and e.value.id in (self.p_xl, self.p_xu) and e.attr in ("dtype", "device", "shape", "ndim"):
